@@ -1,5 +1,6 @@
 import BreezyVerif.Lemmas.C24
 import BreezyVerif.Lemmas.C24Bencode
+import BreezyVerif.Lemmas.C24Git
 /-!
 C24 — theorems.  Tag dictionaries are arbitrary finite maps (association lists
 with unique keys, `Nodup` of the key list being the explicit hypothesis where it
@@ -255,6 +256,318 @@ example : (dkeys [(1, 10), (2, 20), (3, 30), (5, 50)]).Nodup := by decide
 
 end reconcile
 
+/-! ### local git destinations
+
+`cls` says how the destination git repository sees a revision id (a commit it
+has / not a git revision id at all = ghost / a git revision id whose commit it
+does not have = absent); it is an arbitrary function, `refs` are the
+destination's raw tag refs (they may contain broken refs, which `get_tag_dict`
+does not show), `strict` selects whether `set_tag` refuses absent commits.
+Everything is for all dictionaries, selectors, classifications — unbounded. -/
+section git
+variable {κ ν : Type} [DecidableEq κ] [DecidableEq ν]
+
+/-- `LocalGitTagDict._set_tag_dict(to)`, raw refs afterwards: a tag named in
+`to` holds the new value if `set_tag` could write it and keeps its previous ref
+otherwise (the ghost is skipped — it does not end the loop); every tag ref not
+named in `to` is deleted, no other. -/
+theorem gitSetTagDict_pointwise (strict : Bool) (cls : ν → RevClass) (refs to : Dict κ ν)
+    (hn : (dkeys to).Nodup) (n : κ) :
+    dget (gitSetTagDict strict cls refs to) n
+      = match dget to n with
+        | some v => if setTagWrites strict (cls v) then some v else dget refs n
+        | none => none :=
+  gitSetTagDict_get strict cls refs to hn n
+
+/-- Complete pointwise characterisation of what is readable in a local git
+destination after `merge_to` from a non-git source (`MemoryTags`, `BasicTags`),
+including the write-skipping `result != dest_dict`. -/
+theorem git_merge_read_pointwise (strict : Bool) (cls : ν → RevClass) (refs src : Dict κ ν) (ow : Bool)
+    (sel : Option (κ → Bool)) (hr : (dkeys refs).Nodup) (hs : (dkeys src).Nodup) (n : κ) :
+    dget (gitRead cls (gitMergeTo strict cls refs src ow sel).1) n
+      = gitSpec strict cls (srcSel sel src n) (dget (gitRead cls refs) n) ow := by
+  have hd := gitRead_nodup cls refs hr
+  have hR := reconcile_result_pointwise src (gitRead cls refs) ow sel hs n
+  have hRn := reconcile_result_nodup src (gitRead cls refs) ow sel hd
+  unfold gitMergeTo
+  simp only
+  split
+  · -- written
+    rw [gitRead_get cls _ (gitSetTagDict_nodup strict cls refs _ hr),
+      gitSetTagDict_get strict cls refs _ hRn, hR]
+    unfold gitSpec
+    cases hsv : specVal (srcSel sel src n) (dget (gitRead cls refs) n) ow with
+    | none => simp
+    | some v =>
+      simp only
+      rw [gitRead_get cls refs hr]
+      cases hc : cls v <;> cases strict <;> simp [setTagWrites, hc, RevClass.isCommit, Option.filter]
+  · -- not written: the reconciled dictionary equals the destination's
+    rename_i hne
+    have heq := dictNe_false _ _ hRn (by simpa using hne) n
+    rw [hR] at heq
+    unfold gitSpec
+    rw [heq]
+    cases hd' : dget (gitRead cls refs) n with
+    | none => rfl
+    | some v =>
+      have hc := gitRead_commit cls refs n v hd'
+      cases hcv : cls v <;> simp_all [RevClass.isCommit]
+
+/-- what a merge onto a git store reports: `updates` lists every selected source
+definition that is new to, or (with overwrite) differs from, the destination's
+*readable* tags — whether or not the repository could hold it (a ghost is listed
+although it is skipped) — and `conflicts` is exactly the set of selected names
+whose readable destination definition differs, when overwrite is off -/
+theorem git_merge_reports (strict : Bool) (cls : ν → RevClass) (refs src : Dict κ ν) (ow : Bool)
+    (sel : Option (κ → Bool)) (hs : (dkeys src).Nodup) (n : κ) (c : κ × ν × ν) :
+    dget (gitMergeTo strict cls refs src ow sel).2.1 n
+        = specUpd (srcSel sel src n) (dget (gitRead cls refs) n) ow
+      ∧ (c ∈ (gitMergeTo strict cls refs src ow sel).2.2 ↔
+          (ow = false ∧ srcSel sel src c.1 = some c.2.1
+            ∧ dget (gitRead cls refs) c.1 = some c.2.2 ∧ c.2.1 ≠ c.2.2)) :=
+  ⟨reconcile_updates_pointwise src (gitRead cls refs) ow sel hs n,
+   reconcile_conflicts_exact src (gitRead cls refs) ow sel hs c⟩
+
+/-- when every selected source value is a commit of the destination repository,
+a git destination obeys the statement exactly (added / kept / unchanged /
+conflict keeps destination / overwrite takes source) -/
+theorem git_merge_follows_statement (strict : Bool) (cls : ν → RevClass) (refs src : Dict κ ν)
+    (ow : Bool) (sel : Option (κ → Bool)) (hr : (dkeys refs).Nodup) (hs : (dkeys src).Nodup)
+    (hc : ∀ n v, srcSel sel src n = some v → cls v = .commit) (n : κ) :
+    dget (gitRead cls (gitMergeTo strict cls refs src ow sel).1) n
+      = specVal (srcSel sel src n) (dget (gitRead cls refs) n) ow := by
+  rw [git_merge_read_pointwise strict cls refs src ow sel hr hs]
+  unfold gitSpec
+  cases hsv : specVal (srcSel sel src n) (dget (gitRead cls refs) n) ow with
+  | none => rfl
+  | some v =>
+    have : cls v = .commit := by
+      unfold specVal at hsv
+      cases hs' : srcSel sel src n with
+      | none =>
+        simp only [hs'] at hsv
+        have := gitRead_commit cls refs n v hsv
+        cases hcv : cls v <;> simp_all [RevClass.isCommit]
+      | some x =>
+        have hx := hc n x hs'
+        cases hd' : dget (gitRead cls refs) n with
+        | none => simp [hs', hd'] at hsv; subst hsv; exact hx
+        | some w =>
+          have hw := gitRead_commit cls refs n w hd'
+          have hw' : cls w = .commit := by cases hcw : cls w <;> simp_all [RevClass.isCommit]
+          simp only [hs', hd'] at hsv
+          split at hsv
+          · simp at hsv; subst hsv; exact hw'
+          · split at hsv <;> (simp at hsv; subst hsv) <;> assumption
+    simp [this]
+
+/-- a source tag that is selected, new to the destination and a commit the
+destination has is added — whatever else (ghosts included) is in the source -/
+theorem git_merge_source_only_added (strict : Bool) (cls : ν → RevClass) (refs src : Dict κ ν)
+    (ow : Bool) (sel : Option (κ → Bool)) (hr : (dkeys refs).Nodup) (hs : (dkeys src).Nodup)
+    (n : κ) (v : ν) (h1 : srcSel sel src n = some v) (h2 : dget (gitRead cls refs) n = none)
+    (hc : cls v = .commit) :
+    dget (gitRead cls (gitMergeTo strict cls refs src ow sel).1) n = some v := by
+  rw [git_merge_read_pointwise strict cls refs src ow sel hr hs]
+  simp [gitSpec, specVal, h1, h2, hc]
+
+/-- every tag only in the destination (or not selected) is kept — whatever else
+(ghosts included) is in the source -/
+theorem git_merge_dest_only_kept (strict : Bool) (cls : ν → RevClass) (refs src : Dict κ ν)
+    (ow : Bool) (sel : Option (κ → Bool)) (hr : (dkeys refs).Nodup) (hs : (dkeys src).Nodup)
+    (n : κ) (h1 : srcSel sel src n = none) :
+    dget (gitRead cls (gitMergeTo strict cls refs src ow sel).1) n = dget (gitRead cls refs) n := by
+  rw [git_merge_read_pointwise strict cls refs src ow sel hr hs]
+  unfold gitSpec
+  rw [h1, specVal_none]
+  cases hd' : dget (gitRead cls refs) n with
+  | none => rfl
+  | some v =>
+    have hc := gitRead_commit cls refs n v hd'
+    cases hcv : cls v <;> simp_all [RevClass.isCommit]
+
+/-- a source definition the destination cannot hold (a ghost) leaves the
+destination's definition of that name — or its absence — exactly as it was -/
+theorem git_merge_ghost_leaves_dest (strict : Bool) (cls : ν → RevClass) (refs src : Dict κ ν)
+    (ow : Bool) (sel : Option (κ → Bool)) (hr : (dkeys refs).Nodup) (hs : (dkeys src).Nodup)
+    (n : κ) (v : ν) (h1 : srcSel sel src n = some v) (hg : cls v = .ghost) :
+    dget (gitRead cls (gitMergeTo strict cls refs src ow sel).1) n = dget (gitRead cls refs) n := by
+  rw [git_merge_read_pointwise strict cls refs src ow sel hr hs]
+  unfold gitSpec specVal
+  rw [h1]
+  cases hd' : dget (gitRead cls refs) n with
+  | none => simp [hg]
+  | some w =>
+    have hc := gitRead_commit cls refs n w hd'
+    have hw : cls w = .commit := by cases hcw : cls w <;> simp_all [RevClass.isCommit]
+    by_cases e : v = w
+    · subst e; simp [hg] at hw
+    · cases ow <;> simp [e, hg, hw]
+
+/-- No readable destination tag is ever lost, provided `set_tag` is strict or no
+selected source value is an absent commit.  (Full statement — without the
+proviso — is false for the non-strict `set_tag`: `git_merge_absent_loses_witness`.) -/
+theorem git_merge_never_loses_partial (strict : Bool) (cls : ν → RevClass) (refs src : Dict κ ν)
+    (ow : Bool) (sel : Option (κ → Bool)) (hr : (dkeys refs).Nodup) (hs : (dkeys src).Nodup)
+    (hp : strict = true ∨ ∀ n v, srcSel sel src n = some v → cls v ≠ .absent)
+    (n : κ) (h : (dget (gitRead cls refs) n).isSome) :
+    (dget (gitRead cls (gitMergeTo strict cls refs src ow sel).1) n).isSome := by
+  rw [git_merge_read_pointwise strict cls refs src ow sel hr hs]
+  cases hd' : dget (gitRead cls refs) n with
+  | none => simp [hd'] at h
+  | some w =>
+    have hc := gitRead_commit cls refs n w hd'
+    have hw : cls w = .commit := by cases hcw : cls w <;> simp_all [RevClass.isCommit]
+    unfold gitSpec specVal
+    cases hs' : srcSel sel src n with
+    | none => simp [hw]
+    | some v =>
+      by_cases e : v = w
+      · subst e; simp [hw]
+      · cases ow
+        · simp [e, hw]
+        · simp only [e, if_false, if_true]
+          cases hcv : cls v
+          · simp
+          · simp
+          · rcases hp with hp | hp
+            · simp [hp]
+            · exact absurd hcv (hp n v hs')
+
+/-- the non-strict `set_tag` loses a destination tag: overwriting `t ↦ 1` with
+the absent commit `2` leaves a broken ref, nothing readable under `t` -/
+theorem git_merge_absent_loses_witness :
+    let cls : Nat → RevClass := fun v => if v = 2 then .absent else .commit
+    dget (gitRead cls [(7, 1)]) 7 = some 1
+      ∧ dget (gitRead cls (gitMergeTo false cls [(7, 1)] [(7, 2)] true none).1) 7 = none
+      ∧ dget (gitRead cls (gitMergeTo true cls [(7, 1)] [(7, 2)] true none).1) 7 = some 1 := by
+  decide
+
+/-! #### git → local git (`InterTagsFromGitToLocalGit.merge`) -/
+
+/-- raw target refs afterwards, per tag name -/
+theorem g2g_refs_pointwise (cls : ν → RevClass) (refs src : Dict κ ν) (ow : Bool)
+    (sel : Option (κ → Bool)) (hs : (dkeys src).Nodup) (n : κ) :
+    dget (gitToGit cls refs src ow sel).refs n
+      = g2gSpec cls (srcSel sel src n) (dget refs n) ow :=
+  foldl_g2g_refs cls ow sel src hs _ n
+
+/-- reported updates: exactly the refs that were written, with the new value -/
+theorem g2g_updates_pointwise (cls : ν → RevClass) (refs src : Dict κ ν) (ow : Bool)
+    (sel : Option (κ → Bool)) (hs : (dkeys src).Nodup) (n : κ) :
+    dget (gitToGit cls refs src ow sel).updates n
+      = g2gUpd cls (srcSel sel src n) (dget refs n) ow := by
+  have := foldl_g2g_updates cls ow sel src hs ⟨refs, [], []⟩ n
+  unfold gitToGit
+  rw [this]
+  cases g2gUpd cls (srcSel sel src n) (dget refs n) ow <;> simp
+
+/-- reported conflicts: the selected names whose (readable) target definition
+differs, when overwrite is off -/
+theorem g2g_conflicts_exact (cls : ν → RevClass) (refs src : Dict κ ν) (ow : Bool)
+    (sel : Option (κ → Bool)) (hs : (dkeys src).Nodup) (c : κ × ν × ν) :
+    c ∈ (gitToGit cls refs src ow sel).conflicts ↔
+      (ow = false ∧ srcSel sel src c.1 = some c.2.1 ∧ dget refs c.1 = some c.2.2
+        ∧ c.2.1 ≠ c.2.2 ∧ (cls c.2.2).isCommit = true) := by
+  have := foldl_g2g_conflicts cls ow sel src hs ⟨refs, [], []⟩ c
+  unfold gitToGit
+  rw [this]; simp
+
+/-- when the target has no broken refs, git → local git leaves readable exactly
+what the strict git specification says: the statement for commits the target
+has, the destination's definition for commits it does not have -/
+theorem g2g_read_pointwise (cls : ν → RevClass) (refs src : Dict κ ν) (ow : Bool)
+    (sel : Option (κ → Bool)) (hr : (dkeys refs).Nodup) (hs : (dkeys src).Nodup)
+    (hg : ∀ v, cls v ≠ .ghost)
+    (hb : ∀ n w, dget refs n = some w → cls w = .commit) (n : κ) :
+    dget (gitRead cls (gitToGit cls refs src ow sel).refs) n
+      = gitSpec true cls (srcSel sel src n) (dget (gitRead cls refs) n) ow := by
+  have hn : (dkeys (gitToGit cls refs src ow sel).refs).Nodup :=
+    foldl_g2g_nodup cls ow sel src ⟨refs, [], []⟩ hr
+  rw [gitRead_get cls _ hn, gitRead_get cls refs hr, g2g_refs_pointwise cls refs src ow sel hs]
+  unfold gitSpec g2gSpec specVal
+  cases hs' : srcSel sel src n with
+  | none =>
+    cases hd : dget refs n with
+    | none => simp
+    | some w => simp [Option.filter, hb n w hd, RevClass.isCommit]
+  | some v =>
+    have hgv := hg v
+    cases hd : dget refs n with
+    | none =>
+      cases hcv : cls v <;> simp_all [Option.filter, RevClass.isCommit]
+    | some w =>
+      have hw := hb n w hd
+      by_cases e : v = w
+      · subst e; simp [Option.filter, hw, RevClass.isCommit]
+      · cases ow <;> cases hcv : cls v <;> simp_all [Option.filter, RevClass.isCommit]
+
+/-- git → local git never loses a readable target tag -/
+theorem g2g_never_loses (cls : ν → RevClass) (refs src : Dict κ ν) (ow : Bool)
+    (sel : Option (κ → Bool)) (hr : (dkeys refs).Nodup) (hs : (dkeys src).Nodup) (n : κ)
+    (h : (dget (gitRead cls refs) n).isSome) :
+    (dget (gitRead cls (gitToGit cls refs src ow sel).refs) n).isSome := by
+  have hn : (dkeys (gitToGit cls refs src ow sel).refs).Nodup :=
+    foldl_g2g_nodup cls ow sel src ⟨refs, [], []⟩ hr
+  rw [gitRead_get cls _ hn, g2g_refs_pointwise cls refs src ow sel hs]
+  rw [gitRead_get cls refs hr] at h
+  cases hd : dget refs n with
+  | none => simp [hd] at h
+  | some w =>
+    have hw : (cls w).isCommit = true := by simpa [hd, Option.filter] using h
+    unfold g2gSpec
+    cases hs' : srcSel sel src n with
+    | none => simp [Option.filter, hw]
+    | some v =>
+      by_cases e : v = w
+      · simp [e, Option.filter, hw]
+      · by_cases hcv : (cls v).isCommit = true <;> cases ow <;> simp [e, hcv, Option.filter, hw]
+
+-- non-vacuity of the hypotheses: a classification with ghosts and absent commits, a
+-- destination with a broken ref, a source whose selected values are all commits
+example :
+    let cls : Nat → RevClass := fun v => if v = 0 then .ghost else if v = 2 then .absent else .commit
+    ∀ n v, srcSel (some fun k => k != 4) [(1, 1), (4, 0), (3, 3)] n = some v → cls v = .commit := by
+  intro cls n v h
+  unfold srcSel at h
+  split at h
+  · have hm := dget_some_mem _ _ _ h
+    simp at hm
+    rcases hm with ⟨rfl, rfl⟩ | ⟨rfl, rfl⟩ | ⟨rfl, rfl⟩ <;> simp_all [selected, cls]
+  · simp at h
+example :
+    let cls : Nat → RevClass := fun v => if v = 0 then .ghost else if v = 2 then .absent else .commit
+    ∀ n v, srcSel none [(1, 1), (4, 0), (3, 3)] n = some v → cls v ≠ .absent := by
+  intro cls n v h
+  have hm := dget_some_mem _ _ _ (by simpa [srcSel, selected] using h)
+  simp at hm
+  rcases hm with ⟨rfl, rfl⟩ | ⟨rfl, rfl⟩ | ⟨rfl, rfl⟩ <;> simp [cls]
+example :
+    let cls : Nat → RevClass := fun v => if v = 2 then .absent else .commit
+    (∀ v, cls v ≠ .ghost) ∧ ∀ n w, dget [(9, 1), (5, 3)] n = some w → cls w = .commit := by
+  refine ⟨fun v => by by_cases h : v = 2 <;> simp [h], ?_⟩
+  intro n w h
+  have hm := dget_some_mem _ _ _ h
+  simp at hm
+  rcases hm with ⟨rfl, rfl⟩ | ⟨rfl, rfl⟩ <;> simp
+
+-- non-vacuity: a ghost in the middle of the source; the tags after it are still
+-- added, the destination-only tag 9 survives, the broken ref 8 is cleaned up
+example :
+    let cls : Nat → RevClass := fun v => if v = 0 then .ghost else if v = 2 then .absent else .commit
+    gitMergeTo true cls [(9, 1), (8, 2)] [(1, 1), (2, 0), (3, 3)] false none
+      = ([(9, 1), (1, 1), (3, 3)], [(1, 1), (2, 0), (3, 3)], []) := by decide
+example :
+    let cls : Nat → RevClass := fun v => if v = 0 then .ghost else if v = 2 then .absent else .commit
+    (gitToGit cls [(9, 1), (5, 1)] [(1, 1), (4, 2), (5, 3), (3, 3)] false none).refs
+        = [(9, 1), (5, 1), (1, 1), (3, 3)]
+      ∧ (gitToGit cls [(9, 1), (5, 1)] [(1, 1), (4, 2), (5, 3), (3, 3)] false none).conflicts
+        = [(5, 3, 1)] := by decide
+example : (dkeys [(9, 1), (8, 2)]).Nodup ∧ (dkeys [(1, 1), (2, 0), (3, 3)]).Nodup := by decide
+
+end git
+
 /-! ### serialisation -/
 
 /-- the stored order is the sorted order; as a map nothing changes -/
@@ -285,6 +598,52 @@ theorem tags_roundtrip (d : Dict Bytes Bytes) (hn : (dkeys d).Nodup)
     intro e he
     exact hu e.1 ((dkeys_sortKV e.1 d).mp (by simp only [dkeys, List.mem_map]; exact ⟨e, he, rfl⟩))
   simp [this]
+
+/-- two tag dictionaries with the same stored bytes are the same map: nothing
+is lost or merged by the serialisation -/
+theorem serialize_injective (d1 d2 : Dict Bytes Bytes) (h1 : (dkeys d1).Nodup) (h2 : (dkeys d2).Nodup)
+    (h : serialize d1 = serialize d2) (k : Bytes) : dget d1 k = dget d2 k := by
+  have e1 := bencode_dict_roundtrip d1 h1
+  have e2 := bencode_dict_roundtrip d2 h2
+  unfold serialize at h
+  rw [h, e2] at e1
+  have : sortKV d2 = sortKV d1 := by injection e1
+  rw [← sortKV_same_map d1 h1, ← sortKV_same_map d2 h2, this]
+
+/-- `BasicTags.set_tag(k, v)` = read, `d[k] = v`, write: reading the file again
+gives `v` for `k` and every other tag exactly as before -/
+theorem set_tag_roundtrip (d : Dict Bytes Bytes) (hn : (dkeys d).Nodup)
+    (hu : ∀ n ∈ dkeys d, validUTF8 n = true) (k v : Bytes) (hk : validUTF8 k = true) :
+    ∃ d', deserialize (serialize (dset d k v)) = .ok d'
+      ∧ ∀ n, dget d' n = if k = n then some v else dget d n := by
+  have hn' := dset_nodup d k v hn
+  have hu' : ∀ n ∈ dkeys (dset d k v), validUTF8 n = true := by
+    intro n hm
+    rw [dkeys_dset] at hm
+    split at hm
+    · exact hu n hm
+    · rcases List.mem_append.mp hm with hm | hm
+      · exact hu n hm
+      · simp at hm; subst hm; exact hk
+  refine ⟨_, tags_roundtrip _ hn' hu', ?_⟩
+  intro n
+  rw [sortKV_same_map _ hn']
+  by_cases e : k = n
+  · subst e; simp [dget_dset_self]
+  · simp [e, dget_dset_ne _ _ _ _ e]
+
+/-- `BasicTags.delete_tag(k)` = read, `del d[k]`, write: reading the file again
+gives no tag `k` and every other tag exactly as before -/
+theorem delete_tag_roundtrip (d : Dict Bytes Bytes) (hn : (dkeys d).Nodup)
+    (hu : ∀ n ∈ dkeys d, validUTF8 n = true) (k : Bytes) :
+    ∃ d', deserialize (serialize (ddel d k)) = .ok d'
+      ∧ ∀ n, dget d' n = if n = k then none else dget d n := by
+  have hn' := ddel_nodup d k hn
+  have hu' : ∀ n ∈ dkeys (ddel d k), validUTF8 n = true :=
+    fun n hm => hu n ((dkeys_filter_sublist d _).subset hm)
+  refine ⟨_, tags_roundtrip _ hn' hu', ?_⟩
+  intro n
+  rw [sortKV_same_map _ hn', dget_ddel]
 
 /-- the empty file is the empty dictionary (initial state of a branch) -/
 theorem deserialize_empty : deserialize [] = .ok [] := rfl
